@@ -290,12 +290,18 @@ func Name(r *rand.Rand, o NameOpts) string {
 	return s
 }
 
+var specialNames = []string{"null", "Null", "true", "false", "yes", "no", "on", "off", "~", "nan", "inf", "NaN", "1e3", "0x10", "12", "0.5", ".5", "1_000", "...", ".", "..", "%YAML 1.2", "!!str", "&anchor", "*alias", "<<", "@at", "`tick`", "|", ">", "[a]", "{a}", "a, b", "a=b", "$HOME", "${x}", "%s", "%d", "{{.}}", "\\n", "C:\\food", "<b>", "&amp;", "'", "''", "a'b", "(", ")", "*", "?", "+1", "1/2", "1:2"}
+
 // Names returns n distinct names.
 func Names(r *rand.Rand, n int, o NameOpts) []string {
 	seen := map[string]bool{}
 	var out []string
 	for len(out) < n {
 		s := Name(r, o)
+		if o.Edge != "" && r.Intn(12) == 0 {
+			// names that a YAML reader, a shell or a number parser would take for something else: here they are names
+			s = specialNames[r.Intn(len(specialNames))]
+		}
 		if o.Invalid && r.Intn(3) == 0 {
 			s = withInvalid(r, s)
 			if r.Intn(2) == 0 && len(out)+2 < n {
@@ -687,7 +693,8 @@ func (s *Style) filler(sb *strings.Builder) {
 
 func (s *Style) heading(sb *strings.Builder, name string) {
 	h := name
-	if s != nil && s.Quotes && s.coin(6) {
+	if (s != nil && s.Quotes && s.coin(6)) || (strings.HasPrefix(name, "#") && (s == nil || s.Comment == 0 || s.Comment == '#')) {
+		// a name that begins with the comment character can only be a heading, and only in quotes
 		h = `"` + name + `"`
 	}
 	sb.WriteString(h + ":" + s.trail() + s.eol())
